@@ -63,6 +63,15 @@ def gen_cases(tier, rng):
                 t += s
                 ts.append(t)
             case.update(unit=unit, t0=t0, times=ts, halflife_s=rng.choice([1, 2, 5]))
+            if rng.random() < 0.3:
+                # nanosecond-resolution ticks far from the epoch with a sub-microsecond halflife: any float64 detour of the
+                # timestamps (2^53 < t) changes the elapsed times visibly
+                base = 1_700_000_000_123_456_789
+                tns, t = [], base
+                for _ in range(L):
+                    t += rng.choice([0, 37, 100, 450, 900, 2000])
+                    tns.append(t)
+                case.update(unit="ns", fine=True, times_ns=tns, halflife_ns=rng.choice([250, 500, 1000]))
         if case["entry"] == "ema":
             case["codes"] = [0] * L  # ungrouped entry point: one series
             case["ng"] = 1
@@ -95,7 +104,9 @@ def closed_form(case):
         last = lv[-1]
         num = den = 0
         for j in lv:
-            if case["variant"] == "timed":
+            if case["variant"] == "timed" and case.get("fine"):
+                w = 2.0 ** (-(case["times_ns"][last] - case["times_ns"][j]) / case["halflife_ns"])
+            elif case["variant"] == "timed":
                 w = 2.0 ** (-(case["times"][last] - case["times"][j]) / case["halflife_s"])
             else:
                 elapsed = rows.index(last) - rows.index(j)
@@ -123,10 +134,15 @@ def run_impl(case):
     elif case["variant"] == "halflife":
         kw["halflife"] = case["halflife"]
     else:
-        mult = {"s": 1, "ms": 10 ** 3, "us": 10 ** 6, "ns": 10 ** 9}[case["unit"]]
-        ts = np.array([(case["t0"] + t) * mult for t in case["times"]], dtype="int64").view(f"datetime64[{case['unit']}]")
-        kw["times"] = ts
-        kw["halflife"] = f"{case['halflife_s']}s"
+        if case.get("fine"):
+            ts = np.array(case["times_ns"], dtype="int64").view("datetime64[ns]")
+            kw["times"] = ts
+            kw["halflife"] = pd.Timedelta(case["halflife_ns"], unit="ns")
+        else:
+            mult = {"s": 1, "ms": 10 ** 3, "us": 10 ** 6, "ns": 10 ** 9}[case["unit"]]
+            ts = np.array([(case["t0"] + t) * mult for t in case["times"]], dtype="int64").view(f"datetime64[{case['unit']}]")
+            kw["times"] = ts
+            kw["halflife"] = f"{case['halflife_s']}s"
     index = None
     if case["container"] == "series":
         index = pd.Index([f"r{(i * 5) % max(L, 1)}_{i}" for i in range(L)])
@@ -257,7 +273,7 @@ def shrink_candidates(case):
         if L <= 1:
             break
         c = dict(case)
-        for k in ("codes", "vals", "mask", "times"):
+        for k in ("codes", "vals", "mask", "times", "times_ns"):
             if case.get(k) is not None:
                 c[k] = case[k][:i] + case[k][i + 1:]
         yield c
